@@ -77,7 +77,11 @@ def make_evolve_config(s, adaptive=False, guess_dt=None, adaptive_rtol=1e-5, tig
 def expm_apply(H, v, z):
     """exp(z*H) v for Hermitian H via eigendecomposition"""
     w, u = np.linalg.eigh((H + H.conj().T) / 2)
-    return u @ (np.exp(z * w) * (u.conj().T @ v))
+    v = np.asarray(v)
+    e = np.exp(z * w)
+    if v.ndim == 2:  # density-operator form: the propagator acts on the ket (row) index
+        e = e[:, None]
+    return u @ (e * (u.conj().T @ v))
 
 
 def stability_poly_apply(a, b, A, v):
@@ -120,3 +124,21 @@ def schmidt_ranks(vec, dims, rel=1e-9):
         s = np.linalg.svd(np.asarray(vec).reshape(int(np.prod(dims[:c])), -1), compute_uv=False)
         out.append(int(np.sum(s > rel * nrm)))
     return out
+
+
+RK4_A = [[0, 0, 0, 0], [0.5, 0, 0, 0], [0, 0.5, 0, 0], [0, 0, 1, 0]]
+
+
+def rk_stage_min_norm(a, A, v):
+    """smallest norm among the stage derivatives k_i = A y_i and the stage states y_i of an explicit RK step
+    (the library represents each of them as a tensor network and refuses exactly vanishing ones)"""
+    ks = []
+    m = np.inf
+    for i in range(len(a)):
+        yi = v.astype(complex)
+        for j in range(i):
+            if a[i][j] != 0:
+                yi = yi + a[i][j] * ks[j]
+        ks.append(A @ yi)
+        m = min(m, np.linalg.norm(yi), np.linalg.norm(ks[-1]))
+    return m
